@@ -155,17 +155,20 @@ inductive Outcome
   | failed (e : Err) (fs : Fs)
   deriving DecidableEq, Repr
 
+/-- the file system while the TCP listeners are being created: the pid file is
+    written first, the unix listener (and its path) comes before any TCP listener -/
+def fsListening (c : Config) (e : Env) (fs0 : Fs) : Fs :=
+  if c.unix then { writePid c e.pid fs0 with unixPath := true } else writePid c e.pid fs0
+
 def setup (c : Config) (e : Env) (fs0 : Fs) : Outcome :=
-  let fs1 := writePid c e.pid fs0
-  -- the unix listener is created (and its path bound) before any TCP listener
-  let fs2 : Fs := if c.unix then { fs1 with unixPath := true } else fs1
   match listen c e with
-  | .error err => .failed err fs2
+  | .error err => .failed err (fsListening c e fs0)
   | .ok pool =>
     match writeBack c e.setOrder pool with
-    | .error err => .failed err fs2
+    | .error err => .failed err (fsListening c e fs0)
     | .ok (fp, fps) =>
-      .started { pool := pool, flagsPort := fp, flagsPorts := fps, fs := writePortFile c fp fps fs2 }
+      .started { pool := pool, flagsPort := fp, flagsPorts := fps,
+                 fs := writePortFile c fp fps (fsListening c e fs0) }
 
 /-- `Proxy.shutdown()`: every listener closed and the pool cleared, the unix
     path removed by `UnixSocketListener.shutdown`, `_delete_port_file`,
